@@ -453,8 +453,18 @@ func literal(v *big.Int, form int) string {
 			return "+" + a.Text(10)
 		}
 		body = a.Text(10)
-	default:
+	case 9:
 		body = "0B" + a.Text(2)
+	case 10: // legacy octal with separators: 0_17_7
+		body = "0" + sepEvery(a.Text(8), 2, true)
+	default: // mixed-case hex with a separator after the prefix and between digit groups
+		h := []byte(a.Text(16))
+		for i := range h {
+			if i%2 == 1 && h[i] >= 'a' {
+				h[i] -= 'a' - 'A'
+			}
+		}
+		body = "0x" + sepEvery(string(h), 3, true)
 	}
 	if neg {
 		return "-" + body
@@ -462,7 +472,19 @@ func literal(v *big.Int, form int) string {
 	return body
 }
 
-const nForms = 10
+const nForms = 12
+
+// sepEvery puts '_' before every k-th digit (and at the front if lead)
+func sepEvery(d string, k int, lead bool) string {
+	var b strings.Builder
+	for i := 0; i < len(d); i++ {
+		if (i > 0 && (len(d)-i)%k == 0) || (i == 0 && lead) {
+			b.WriteByte('_')
+		}
+		b.WriteByte(d[i])
+	}
+	return b.String()
+}
 
 var pads = [][2]string{{"", ""}, {" ", ""}, {"", " "}, {" ", " "}, {"\t", "\n"}, {"  ", "\r\n"}, {" ", " "}}
 
